@@ -132,8 +132,11 @@ def decodeToEnd (item : Dop) : (fuel : Nat) → DecM (List PVal)
     let s ← getS
     if s.cursorByte < s.msg.length then do
       let x ← decodeDop fuel item
-      let rest ← decodeToEnd item fuel
-      pure (x :: rest)
+      let s' ← getS
+      if s'.cursorByte ≤ s.cursorByte then raise .decode          -- "items … do not consume any data"
+      else do
+        let rest ← decodeToEnd item fuel
+        pure (x :: rest)
     else pure []
 
 def decodeUntilMarker (termVal : IVal) (termDop : Dop) (item : Dop) : (fuel : Nat) → DecM (List PVal)
@@ -151,8 +154,11 @@ def decodeUntilMarker (termVal : IVal) (termDop : Dop) (item : Dop) : (fuel : Na
       if hit then pure []
       else do
         let x ← decodeDop fuel item
-        let rest ← decodeUntilMarker termVal termDop item fuel
-        pure (x :: rest)
+        let s' ← getS
+        if s'.cursorByte ≤ s.cursorByte then raise .decode        -- "items … do not consume any data"
+        else do
+          let rest ← decodeUntilMarker termVal termDop item fuel
+          pure (x :: rest)
 
 def decodeParam : (fuel : Nat) → Param → DecM PVal
   | 0, _ => raise .unmodelled
